@@ -190,6 +190,16 @@ func c03table(args []string) error {
 				p := row.Data["p"].(map[string]interface{})
 				x, y := c.ScalarMult(hx(p["x"].(string)), hx(p["y"].(string)), bytesOf("k"))
 				got["xy"] = mkxy(x, y)
+			case "addsamey":
+				if ok, _ := row.Data["ok"].(bool); ok {
+					p, q := row.Data["p"].(map[string]interface{}), row.Data["q"].(map[string]interface{})
+					px, py, qx, qy := hx(p["x"].(string)), hx(p["y"].(string)), hx(q["x"].(string)), hx(q["y"].(string))
+					x, y := c.Add(px, py, qx, qy)
+					got["xy"] = mkxy(x, y)
+					x, y = c.Add(qx, qy, px, py)
+					got["xy_swapped"] = mkxy(x, y)
+					got["q_oncurve"] = c.IsOnCurve(qx, qy)
+				}
 			case "genkey":
 				rb := bytesOf("reader")
 				k, err := sm2.GenerateKey(bytes.NewReader(rb))
